@@ -166,7 +166,7 @@ def r12_2(ctx):
     test = while_node.test
     names = sorted(astq.names_loaded(test))
     construct = f"{fi.key}::R12.2::while-test"
-    loop_var = ast.unparse(for_node.target)
+    loop_var = "out_t"          # role name (integrate's locals are canonicalised by role)
     try:
         tt = _truth_table_while(test, ("curr_t", loop_var))
         ok = tt == {"<": True, "=": False, ">": False}
@@ -189,9 +189,16 @@ def r12_3(ctx):
     y0, extra0 = nf.sym("y0"), nf.sym("extra0")
     env = p.env
     ys = env.get("ys")
-    ok = isinstance(ys, list) and len(ys) == 1 and isinstance(ys[0], Rat) and nf.equal(ys[0], y0)
+    buffer = ik.is_output_buffer(ys)
+    writes = ik.output_writes(ys)
+    ok = writes is not None and len(writes) == 1 and writes[0][0] == 0 and isinstance(writes[0][1], Rat) and nf.equal(writes[0][1], y0)
+    if buffer:
+        # a preallocated output tensor: its first axis must be the number of output times
+        sizes = ys.attrs.get("sizes") or ()
+        ok = ok and len(sizes) >= 1 and isinstance(sizes[0], Rat) and nf.equal(sizes[0], nf.sym("len(ts)", True))
     rep.check(ok, "R12.3", astq.loc(fi), f"{fi.key}::R12.3::ys-init",
-              f"the output list starts as `{ys}`, not [y0]: ys[0] would not be y0 exactly", "ys = [y0]")
+              f"the outputs start as `{writes}`{' in a buffer of sizes ' + str(ys.attrs.get('sizes')) if buffer else ''}, not "
+              f"[y0] (first axis len(ts)): ys[0] would not be y0 exactly", "ys = [y0]")
     init_ok = nf.equal(env["curr_t"], nf.sym("ts[0]", True)) and nf.equal(env["prev_t"], nf.sym("ts[0]", True)) \
         and ik._same(env["curr_y"], y0) and ik._same(env["prev_y"], y0) and ik._same(env["curr_extra"], extra0) \
         and nf.equal(env["step_size"], nf.sym("self.dt", True))
@@ -200,27 +207,35 @@ def r12_3(ctx):
               f"prev_y={env['prev_y']}, curr_extra={env['curr_extra']}, step_size={env['step_size']} instead of "
               f"(ts[0], ts[0], y0, y0, extra0, self.dt)", "starts from (ts[0], y0, extra0) with step self.dt")
     # the for loop iterates over ts[1:]
-    it_ok = ast.unparse(for_node.iter) == "ts[1:]"
+    it_ok = ast.unparse(for_node.iter) in ("ts[1:]", "enumerate(ts[1:], start=1)", "enumerate(ts[1:], 1)")
     rep.check(it_ok, "R12.3", astq.loc(fi, for_node), f"{fi.key}::R12.3::for-iter",
               f"output loop iterates over `{ast.unparse(for_node.iter)}`, not ts[1:]", "for out_t in ts[1:]")
     # tail: one append
     pt, _ = ik.run_body(model, False, tail, {})
-    ys2 = pt.env.get("ys")
-    rep.check(isinstance(ys2, list) and len(ys2) == 2, "R12.3", astq.loc(fi, for_node), f"{fi.key}::R12.3::one-append",
-              f"after the stepping loop the output list grows by {len(ys2) - 1 if isinstance(ys2, list) else '?'} "
-              f"entries per output time (must be exactly 1)", "one append per output time")
+    w2 = ik.output_writes(pt.env.get("ys"))
+    one = w2 is not None and len(w2) == 2
+    if one and buffer:
+        # the slot written is the one that travels with the output time (k-th output time <-> row k)
+        one = isinstance(w2[1][0], Rat) and nf.equal(w2[1][0], nf.sym("out_index", True))
+    rep.check(one, "R12.3", astq.loc(fi, for_node), f"{fi.key}::R12.3::one-append",
+              f"after the stepping loop the outputs grow by {len(w2) - 1 if w2 is not None else '?'} "
+              f"entries per output time (must be exactly 1{', in the row of that output time' if buffer else ''})",
+              "one append per output time")
     # epilogue
     ret = None
     from ..interp import _Return
     try:
         it = Interp(model, ik.LoopHooks({}))
         steps = []
-        env2 = ik.head_env(ik.make_self(model, False, steps), *ik.make_ts())
+        env2 = ik.head_env(ik.make_self(model, False, steps), *ik.make_ts(), style="buffer" if buffer else "list")
         it.exec_block(epilogue, env2, fi)
     except _Return as r:
         ret = r.value
-    ok = isinstance(ret, tuple) and len(ret) == 2 and isinstance(ret[0], Cat) and ret[0].kind == "stack" \
-        and ret[0].dim == 0 and len(ret[0].parts) == 1 and ik._same(ret[1], ik.H("curr_extra", False))
+    ok = isinstance(ret, tuple) and len(ret) == 2 and ik._same(ret[1], ik.H("curr_extra", False))
+    if buffer:
+        ok = ok and ret[0] is env2["ys"]
+    else:
+        ok = ok and isinstance(ret[0], Cat) and ret[0].kind == "stack" and ret[0].dim == 0 and len(ret[0].parts) == 1
     rep.check(ok, "R12.3", astq.loc(fi), f"{fi.key}::R12.3::return",
               f"integrate returns `{ret}`; expected (torch.stack(ys, dim=0), curr_extra)",
               "returns (stack(ys, dim=0), carried extra)")
